@@ -81,6 +81,8 @@ def sarPub (a : Sec) (s : Nat) : Sec := ⟨(a.v / 2 ^ s + (if a.v ≥ HALF then 
 /-- `x % m` for a COMPILE-TIME constant `m` (e.g. `shift % Self::BITS`): the compiler strength-reduces it to a mask
 or a multiply-and-shift; no division instruction is emitted for a constant divisor. -/
 def remConst (a : Sec) (m : Nat) : Sec := ⟨a.v % m⟩
+/-- `x / m` for a COMPILE-TIME constant `m` (e.g. `(49 * d + addend) / 17`): multiply-and-shift, no division instruction. -/
+def divConst (a : Sec) (m : Nat) : Sec := ⟨a.v / m⟩
 /-- `primitives::adc` -/
 def adc (a b c : Sec) : Sec × Sec := (⟨(CB.adc a.v b.v c.v).1⟩, ⟨(CB.adc a.v b.v c.v).2⟩)
 /-- `primitives::sbb` -/
